@@ -44,6 +44,7 @@ func c13setup(x *lib.Exec, s c13scn) *c14world {
 	must(cw.apply(c14step{"upload", "r1", "A"}))
 	must(cw.apply(c14step{"upload", "r2", "A'"}))
 	must(cw.apply(c14step{"upload", "x:r3", "C"}))
+	must(cw.apply(c14step{"upload", "x:r3", "D"})) // blobs referenced from the extra context only
 	must(cw.apply(c14step{"upload", "r1", "C"}))
 	must(cw.apply(c14step{"delete", "r1", ""}))
 	if s.hist == "many" {
@@ -273,7 +274,7 @@ func TestC13(t *testing.T) {
 	if lib.Thorough() {
 		fb = 2
 	}
-	rep.Rule = fmt.Sprintf("history: 3 repos over 2 contexts sharing deduplicated blobs, a deleted bundle (orphaned blobs), optionally a bundle deleted earlier whose content is uploaded again later; index build with chunk size 2 (and, history 'many', chunk size 1 over 15 keys: more than 10 chunks, listed out of numeric order on resume) where EVERY store call is a fault point (reads: transient error, or a request that hangs 5 minutes and then fails; writes: transient before / after / after-reading-the-body, crash before / after) and a 5-minute clock tick may fire the chunk uploader at any step; after a crash the build is resumed; then one of 4 uploads (none / fresh / sharing indexed blobs / re-using orphaned blobs); then delete-unused with a transient fault on any of its store calls; <=%d deviations per execution; oracle: if the commands reported success, every bundle committed before the index and the bundle uploaded after it download with their original bytes; distinct = distinct (scenario, fault site, outcome)", fb)
+	rep.Rule = fmt.Sprintf("history: 3 repos over 2 contexts sharing deduplicated blobs (one bundle of the second context holds blobs nothing else references), a deleted bundle (orphaned blobs), optionally a bundle deleted earlier whose content is uploaded again later; index build with chunk size 2 (and, history 'many', chunk size 1 over 15 keys: more than 10 chunks, listed out of numeric order on resume) where EVERY store call is a fault point (reads: transient error, or a request that hangs 5 minutes and then fails; writes: transient before / after / after-reading-the-body, crash before / after) and a 5-minute clock tick may fire the chunk uploader at any step; after a crash the build is resumed; then one of 4 uploads (none / fresh / sharing indexed blobs / re-using orphaned blobs); then delete-unused with a transient fault on any of its store calls; <=%d deviations per execution; oracle: if the commands reported success, every bundle committed before the index and the bundle uploaded after it download with their original bytes; distinct = distinct (scenario, fault site, outcome)", fb)
 	var scs []*lib.Scenario
 	for _, h := range []string{"base", "orphan", "many"} {
 		for _, u := range []string{"none", "fresh", "shares-indexed", "reuses-orphan"} {
